@@ -411,7 +411,18 @@ def c15_r3_iter(ctx, rule="C15.R3"):
             ctx.check(has_fact(b, bi, {}, *opt_fact("some", "SourceView::get_line(*)")), rule, fn, "idx:on-some", "... only after a line was returned", ctx.site(b, bi, si))
     somes = [site[0] for sh, site, _ in q.def_shapes(b, 0, {}) if sh.startswith("Option::Some{") or sh.startswith("try(") or "get_line" in sh and not sh.startswith("Option::None")]
     somes = [site[0] for sh, site, _ in q.def_shapes(b, 0, {}) if sh != "Option::None{}" and not sh.startswith("FromResidual")]
-    ctx.check(len(advs) == 1 and bool(somes) and all(b.dominates(advs[0], x) or advs[0] == x for x in somes), rule, fn, "idx:advances", "every returned line advances the index (each line is yielded once)")
+    ok_adv = len(advs) == 1 and bool(somes) and all(b.dominates(advs[0], x) or advs[0] == x for x in somes)
+    if not advs:
+        # `self.sv.get_line(self.idx).inspect(|_| self.idx += 1)`: the closure runs exactly when a line is returned
+        rets = [sh for sh, _, _ in q.def_shapes(b, 0, {})]
+        cls = list(ctx.facts.closures_of(fn))
+        inc = []
+        for cl in cls:
+            for bi, si, s, is_term in cl.locations():
+                if not is_term and s["k"] == "assign" and s["place"]["p"] and s["place"]["p"][-1].get("n") == "idx":
+                    inc.append(q.shape(cl.expr_of_rvalue(s["rv"])).replace("^", ""))
+        ok_adv = len(rets) == 1 and rets[0].startswith("Option::inspect(SourceView::get_line(arg1.sv,arg1.idx),") and inc == ["Add(1,arg1.idx)"]
+    ctx.check(ok_adv, rule, fn, "idx:advances", "every returned line advances the index (each line is yielded once)")
     b2 = ctx.body(LINE_COUNT)
     calls = q.calls_to(b2, GET_LINE)
     ok = len(calls) == 1 and q.shape(q.arg_expr(b2, calls[0][1], 1)) in ("Not(0)", "4294967295")
